@@ -43,6 +43,10 @@ THEOREMS = [
     "XalanModel.Props.C11.emitted_handled",
     "XalanModel.Props.C11.dispatch_sound",
     "XalanModel.Props.C11.eval_ep_eq_conv_eval",
+    "XalanModel.Props.C11.chars_chunking_admissible",
+    "XalanModel.Props.C11.recycled_objects_clear_memos",
+    "XalanModel.Props.C11.recycled_objects_fresh",
+    "XalanModel.Props.C11.recycled_like_fresh_iff",
 ]
 
 EPS = ["obj", "bool", "num", "str", "chars", "nodes"]
@@ -113,10 +117,10 @@ NODESET_ARG = ("count", "name1", "lname1", "sum")
 ARITH = {"plus": "add", "minus": "sub", "mult": "mul", "div": "div", "mod": "mod"}
 UN = {"neg": "neg", "floor": "floor", "ceiling": "ceil", "round": "round"}
 
-PATHS = ["//a", "r/b", "@a", ".", "..", "//zzz", "//a[2]", "*", "//text()", "//@*", "$ns[2]", "(//a)[1]", "//c/..",
+PATHS = ["//p:*", "//@p:*", "//*[last()]", "//@*[last()]", "//a", "r/b", "@a", ".", "..", "//zzz", "//a[2]", "*", "//text()", "//@*", "$ns[2]", "(//a)[1]", "//c/..",
          "descendant::a[last()]", "//e", "following-sibling::*", "$ns[. > 1]"]
 NPATHS_EMPTYISH = ["//zzz", "$ne"]
-VARS = ["t", "f", "n0", "n", "nan", "s", "e", "sn", "ns", "ne", "inf"]
+VARS = ["t", "f", "n0", "n", "nan", "s", "e", "sn", "ns", "ne", "inf", "rt", "re", "rtx"]
 NS_VARS = ["ns", "ne"]
 LITS = ["abc", "", "12", " 7 ", "0", "NaN", "-3.5", "x y", "true", "é中"]
 NUMS = ["0", "1", "12", "2.5", "0.5", "1000000", "3", "7", "0.25", "100"]
@@ -170,6 +174,18 @@ def mk_fn(fmt, kids):
     return E("fn", fmt % tuple(k.src for k in kids), fmt, kids, True, "eOP_FUNCTION")
 
 
+EXTS = ["c11:echo(%s)", "c11:str(%s)", "c11:num(%s)", "c11:bool(%s)", "c11:first(%s)"]
+
+
+def mk_ext(fmt, a):
+    return E("ext", fmt % a.src, fmt, [a], True, "eOP_EXTFUNCTION")
+
+
+def gen_ext(r, depth):
+    fmt = r.choice(EXTS)
+    return mk_ext(fmt, gen_nodeset(r, depth) if "first" in fmt else gen_any(r, depth))
+
+
 def gen_nodeset(r, depth):
     if r.chance(1, 25):
         return mk_k0("var", "s")      # not a node-set: every entry point must raise the same error
@@ -206,6 +222,8 @@ def gen_any(r, depth):
         return mk_k1(name, a)
     if c < 16:
         return gen_nodeset(r, depth)
+    if c < 18:
+        return gen_ext(r, depth - 1)
     fmt, n = r.choice(FNS)
     if fmt.startswith("id("):
         return mk_fn(fmt, [mk_k0("lit", "i1 i2")])
@@ -233,25 +251,29 @@ def gen_top(r, opkey, depth):
         return mk_k2(opkey, gen_any(r, depth), gen_any(r, depth))
     if opkey == "union":
         return mk_union([gen_nodeset(r, depth) for _ in range(r.range(2, 3))])
+    if opkey == "ext":
+        return gen_ext(r, depth)
     fmt, n = r.choice(FNS)
     if fmt.startswith("id("):
         return mk_fn(fmt, [mk_k0("lit", "i1 i2")])
     return mk_fn(fmt, [gen_any(r, depth) for _ in range(n)])
 
 
-TOPS = ["lit", "num", "var", "path"] + list(K0SRC) + list(K1) + list(K2) + ["union", "fn"]
+TOPS = ["lit", "num", "var", "path"] + list(K0SRC) + list(K1) + list(K2) + ["union", "fn", "ext"]
 
 # ------------------------------------------------------------------------------------------------
 # documents / contexts
 
+NSDECL = ' xmlns:c11="urn:c11-ext" xmlns:p="urn:p"'
 DOCS = [
-    '<r a="5" id="i0"><a id="i1">1</a><b>x<c>y</c></b><a id="i2">2</a><e/><a>3.5</a><d xml:lang="en">  7 </d></r>',
-    '<r><a>12</a><a>abc</a><b a="0">0</b><c/></r>',
+    '<r%s a="5" id="i0"><a id="i1">1</a><b>x<c>y</c>z</b><a id="i2">2</a><e/><a>3.5</a><d xml:lang="en">  7 </d><p:q p:w="4">8</p:q></r>' % NSDECL,
+    '<r%s><a>12</a><a>abc</a><b a="0">0</b><c/><p:a p:a="1">x<p:b/>y</p:a></r>' % NSDECL,
 ]
-CTXS = [("/", 0), ("//a", 0), ("//a", 1), ("/r/*", 2), ("//@*", 0), ("//text()", 0), ("//*", 3)]
+CTXS = [("/", 0), ("//a", 0), ("//a", 1), ("/r/*", 2), ("//@*", 0), ("//text()", 0), ("//*", 3), ("//p:*", 0), ("//@p:*", 0)]
 BUFS = ["", "PRE", "x{"]
 VAR_LINES = ["var t b 1", "var f b 0", "var n0 n 0", "var n n 2.5", "var nan n NaN", "var s s " + hx8("abc"), "var e s -",
-             "var sn s " + hx8("12"), "var ns ns " + hx8("//a"), "var ne ns " + hx8("//zzz"), "var inf n Infinity"]
+             "var sn s " + hx8("12"), "var ns ns " + hx8("//a"), "var ne ns " + hx8("//zzz"), "var inf n Infinity",
+             "var rt r " + hx8("12"), "var re r -", "var rtx r " + hx8("abc")]
 
 
 def gen_doc(r):
@@ -261,7 +283,7 @@ def gen_doc(r):
         if d <= 0 or r.chance(1, 3):
             return "<%s%s>%s</%s>" % (name, attrs, r.choice(["1", "2", "x", "", "10", " 4 ", "-1"]), name)
         return "<%s%s>%s</%s>" % (name, attrs, "".join(el(d - 1) for _ in range(r.range(1, 3))), name)
-    return "<r>%s</r>" % "".join(el(2) for _ in range(r.range(1, 4)))
+    return "<r%s>%s<p:e p:k=\"1\">5</p:e></r>" % (NSDECL, "".join(el(2) for _ in range(r.range(1, 4))))
 
 
 # ------------------------------------------------------------------------------------------------
@@ -287,6 +309,8 @@ def gval(d):
         return {"tok": "n" + p[1], "num": p[1], "str": p[2]}
     if p[0] == "s":
         return {"tok": "s" + p[1], "num": p[2], "str": p[1]}
+    if p[0] == "r":
+        return {"tok": "r" + p[1], "num": p[2], "str": p[1]}
     if p[0] == "l":
         return {"tok": "l" + p[1], "num": p[3], "str": p[2], "ids": [] if p[1] == "-" else p[1].split(".")}
     return None
@@ -303,6 +327,23 @@ def predicate(d, buf):
             if d.get(TAG[ep]) != "E":
                 bad.append((ep, "generic evaluation raises an error, %s entry point returns %s" % (ep, d.get(TAG[ep]))))
         return bad
+    # (a) "evaluate generally, then convert": the conversions the generic object answers (asked in the order the case chose)
+    #     must be the standard conversions of its value, computed directly by the primitives (a recycled object that kept
+    #     a memo of its previous value answers something else)
+    p = g.split(":")
+    if p[0] == "n" and d["GS"] != p[2]:
+        bad.append(("generic-conv", "string(generic number) answers %r, NumberToDOMString of the value is %r" % (un16(d["GS"]), un16(p[2]))))
+    if p[0] in ("s", "r") and (d["GS"] != p[1] or not same_num(d["GN"], p[2])):
+        bad.append(("generic-conv", "generic %s object answers str=%r num=%s, its value is %r / %s" % (
+            "string" if p[0] == "s" else "result-tree-fragment", un16(d["GS"]), d["GN"], un16(p[1]), p[2])))
+    if p[0] == "l" and (d["GS"] != p[2] or not same_num(d["GN"], p[3]) or d["GB"] != ("0" if p[1] == "-" else "1")):
+        bad.append(("generic-conv", "generic node-set object answers bool=%s num=%s str=%r; first node gives %s / %r" % (
+            d["GB"], d["GN"], un16(d["GS"]), p[3], un16(p[2]))))
+    if p[0] == "r" and d["GB"] != "1":
+        bad.append(("generic-conv", "boolean(result tree fragment) answers false"))
+    if d.get("GC", "E").split(":")[0] != d["GS"]:
+        bad.append(("generic-conv", "character events of the generic object spell %r, its str() is %r" % (d.get("GC"), un16(d["GS"]))))
+    # (b) each specialised entry point = standard conversion of the generic result
     if d.get("B") != d.get("GB"):
         bad.append(("bool", "bool entry point gives %s, boolean(generic) is %s" % (d.get("B"), d.get("GB"))))
     if d.get("N") == "E" or not same_num(d.get("N"), d.get("GN")):
@@ -315,6 +356,8 @@ def predicate(d, buf):
     c = d.get("C", "E").split(":")[0]
     if c != d["GS"]:
         bad.append(("chars", "character events spell %r, string(generic) is %r" % (un16(c) if c != "E" else "E", un16(d["GS"]))))
+    if d.get("CR") != d.get("C"):
+        bad.append(("chars", "events through charactersRaw (%s) differ from events through characters (%s)" % (d.get("CR"), d.get("C"))))
     if g.startswith("l:"):
         ids = g.split(":")[1]
         l = d.get("L", "E")
@@ -326,12 +369,54 @@ def predicate(d, buf):
     return bad
 
 
+def chunk_facts(d):
+    """character-event chunking: (events of the entry point, events of the generic object, expected for a fresh node-set)"""
+    c = d.get("C", "E")
+    if c == "E" or ":" not in c:
+        return None
+    lens = c.split(":")[1]
+    return [] if lens == "-" else [int(x) for x in lens.split(".")]
+
+
+def minimise_history(hexe, doc, history, case_lines, buf):
+    """shortest suffix of the session history after which the last line of case_lines still violates the predicate.
+    -> (history lines, still_fails)"""
+    def fails(hist):
+        H = Harness(hexe)
+        try:
+            H.ask("doc " + hx8(doc))
+            for vl in VAR_LINES:
+                H.ask(vl)
+            reps = H.ask_many(hist + case_lines)
+        finally:
+            H.close()
+        d = parse_reply(reps[-1]) if reps else None
+        return bool(d and predicate(d, buf))
+    if fails([]):
+        return [], True
+    n = 1
+    while n < len(history):
+        if fails(history[-n:]):
+            cur = history[-n:]
+            # drop single lines greedily
+            i = 0
+            while i < len(cur) and len(cur) <= 40:
+                cand = cur[:i] + cur[i + 1:]
+                if fails(cand):
+                    cur = cand
+                else:
+                    i += 1
+            return cur, True
+        n *= 2
+    return history, fails(history)
+
+
 def model_tokens(e, rep):
     """model expression tokens for AST e; rep maps id(node) -> parsed harness reply"""
     k = e.kind
     if k == "lit":
         return ["lit", hx16(e.name)]
-    if k in ("num", "var", "path", "fn"):
+    if k in ("num", "var", "path", "fn", "ext"):
         v = gval(rep[id(e)])
         if k == "num":
             return ["num", v["tok"][1:]] if v and v["tok"][0] == "n" else None
@@ -342,7 +427,7 @@ def model_tokens(e, rep):
         kids = [model_tokens(x, rep) for x in e.kids]
         if any(x is None for x in kids):
             return None
-        return ["fn", v["tok"] if v else "none", str(len(kids))] + [t for x in kids for t in x]
+        return [k, v["tok"] if v else "none", str(len(kids))] + [t for x in kids for t in x]
     if k in K0SRC:
         return [k]
     kids = [model_tokens(x, rep) for x in e.kids]
@@ -367,7 +452,7 @@ def facts_for(e, rep, nodeinfo, ctxnode, facts):
             continue
         if v["tok"][0] == "n":
             facts.add("fact n2s %s %s" % (v["num"], v["str"]))
-        if v["tok"][0] in "sl":
+        if v["tok"][0] in "slr":
             facts.add("fact s2n %s %s" % (v["str"], v["num"]))
         kv = [gval(rep[id(x)]) for x in n.kids]
         if n.kind == "k2" and all(kv):
@@ -441,14 +526,7 @@ def run_cases(ctx, hexe, mexe, cases, side, tag):
     M = Harness(mexe) if mexe else None
     curdoc = None
     nodeinfo = []
-    # probe for a defect outside C11 that makes generic evaluation history-dependent: XObjectFactoryDefault::createString
-    # recycles an XString through XString::set(), which keeps XStringBase::m_cachedNumberValue of the previous string
-    H.ask("doc " + hx8("<r/>"))
-    pr = parse_reply(H.ask("eval %s 0 - %s" % (hx8("/"), hx8("('12' > 5) and ('abc' > 5)"))))
-    stats["stale_xstring"] = bool(pr and pr.get("G") == "b:1")
-    if stats["stale_xstring"]:
-        common.log("  NOTE (not C11): ('12' > 5) and ('abc' > 5) evaluates to true through every entry point -- recycled XString keeps "
-                   "the previous string's cached number (XString::set); model comparison excuses cases it explains")
+    history = []
     try:
         for (di, doc, cx, k, buf, e) in cases:
             if curdoc != di:
@@ -459,13 +537,18 @@ def run_cases(ctx, hexe, mexe, cases, side, tag):
                 for vl in VAR_LINES:
                     H.ask(vl)
                 curdoc = di
+                history = []
                 if M:
                     M.ask("reset")
                     M.ask_many(["node %d %s %s %s" % (i, a, b, c) for i, (a, b, c, _) in enumerate(nodeinfo)])
                     M.ask_many(["fact s2n %s %s" % (c, d) for (_, _, c, d) in nodeinfo])
             ns = list(e.nodes())
-            lines = ["eval %s %d %s %s" % (hx8(cx), k, hx8(buf), hx8(n.src)) for n in ns]
+            stats["n"] = stats.get("n", 0) + 1
+            order = stats["n"] % 6      # order in which boolean()/num()/str()/events are asked of the generic result
+            lines = ["eval %s %d %s %s %d" % (hx8(cx), k, hx8(buf), hx8(n.src), order) for n in ns]
+            before = list(history)
             reps = H.ask_many(lines)
+            history.extend(lines)
             if any(x in ("compile-error", "bad-context", "bad") or x.startswith("ERR") for x in reps):
                 stats["skipped"] += 1
                 ctx.hist["skipped:bad-context-or-compile-error"] = ctx.hist.get("skipped:bad-context-or-compile-error", 0) + 1
@@ -485,10 +568,38 @@ def run_cases(ctx, hexe, mexe, cases, side, tag):
             if bad is None:
                 ctx.hist["skipped:unknown-value"] = ctx.hist.get("skipped:unknown-value", 0) + 1
                 continue
+            if bad:
+                # does it need the session history (recycled objects)?  shrink it for the replay
+                if stats["viol"] < 3 * 6:
+                    hist, still = minimise_history(hexe, doc, before, lines, buf)
+                    inp["history"] = hist
+                    inp["case_lines"] = lines
+                    inp["reproduced_in_fresh_session"] = still
+                else:
+                    inp["history"] = before[-60:]
+                    inp["case_lines"] = lines
             for ep, what in bad:
                 stats["viol"] += 1
-                key = "ep-disagree[%s,%s]%s: %s @%s[%d]" % (ep, opname, "[buf]" if buf and ep == "str" else "", e.src, cx, k)
+                key = "ep-disagree[%s,%s]%s%s: %s @%s[%d]" % (ep, opname, "[buf]" if buf and ep == "str" else "",
+                                                          "[after %d earlier evaluations]" % len(inp["history"]) if inp.get("history") else "",
+                                                          e.src, cx, k)
                 ctx.fail(key, what, inp)
+            ch = chunk_facts(d)
+            if ch is not None:
+                if any(x == 0 for x in ch):
+                    stats.setdefault("empty_events", []).append(inp)
+                gp = d.get("G", "E").split(":")
+                total = 0 if d.get("GS", "-") in ("-", "E") else len(d["GS"]) // 4
+                if sum(ch) != total or (total == 0 and ch):
+                    stats.setdefault("bad_chunks", []).append(inp)
+                elif gp[0] == "l" and len(gp) > 4 and total > 0:
+                    fresh = [int(x) for x in gp[4].split(".")] if gp[4] != "-" else []
+                    if ch != [total] and ch != fresh:
+                        stats.setdefault("bad_chunks", []).append(inp)
+                elif gp[0] in ("b", "n") and total > 0 and ch != [total]:
+                    stats.setdefault("bad_chunks", []).append(inp)
+                ctx.hist["events:%s" % ("0" if not ch else "1" if len(ch) == 1 else "many")] = ctx.hist.get(
+                    "events:%s" % ("0" if not ch else "1" if len(ch) == 1 else "many"), 0) + 1
             if opname != e.op:
                 stats["shape"] += 1
                 ctx.hist["shape-mismatch"] = ctx.hist.get("shape-mismatch", 0) + 1
@@ -512,7 +623,9 @@ def run_cases(ctx, hexe, mexe, cases, side, tag):
                 ctx.hist["model:not-expressible"] = ctx.hist.get("model:not-expressible", 0) + 1
                 continue
             # context node id
-            cl = parse_reply(H.ask("eval %s 0 - %s" % (hx8("/"), hx8(cx))))
+            cl_line = "eval %s 0 - %s" % (hx8("/"), hx8(cx))
+            cl = parse_reply(H.ask(cl_line))
+            history.append(cl_line)
             cv = gval(cl) if cl else None
             if not cv or "ids" not in cv or k >= len(cv["ids"]) or cv["ids"][k] == "x":
                 continue
@@ -539,14 +652,6 @@ def run_cases(ctx, hexe, mexe, cases, side, tag):
                 mv = mr[TAG[ep] if ep != "obj" else "O"]
                 if iv != mv and not (ep == "num" and iv != "E" and mv != "E" and same_num(iv, mv)):
                     diffs.append((ep, iv, mv))
-            if diffs and stats.get("stale_xstring") and any(x[0] == "obj" for x in diffs) and \
-                    sum(1 for n in ns if (gval(rep[id(n)]) or {"tok": "?"})["tok"][0] == "s") >= 2:
-                # the *generic* value already differs from the composition of its operands' values, and the build
-                # has the recycled-XString stale number cache (probe above): a C02/C06 matter, all six entry points
-                # agree (predicate checked above)
-                stats["excused"] = stats.get("excused", 0) + 1
-                ctx.hist["model:excused-stale-xstring-cache"] = ctx.hist.get("model:excused-stale-xstring-cache", 0) + 1
-                diffs = []
             if diffs:
                 stats["model_dis"].append({"input": inp, "diffs": diffs})
             # interpreter vs specification inside the model (what eval_ep_eq_conv_eval states)
@@ -599,6 +704,8 @@ def run(ctx):
     ]
     ctx.build("hooks")
     ok_t, out_t = ctx.translate("c11_dispatch")
+    ok_c, out_c = ctx.translate("c11_caches")
+    ok_t = ok_t and ok_c
     side = None
     sp = os.path.join(common.CACHE, "c11_dispatch.json")
     if ok_t and os.path.exists(sp):
@@ -639,7 +746,7 @@ def run(ctx):
         wanted = sorted(set(name2key.get(op) for _, op in incoh if name2key.get(op))) or TOPS
         for opkey in wanted:
             for buf in BUFS:
-                for cx, k in CTXS[:4]:
+                for cx, k in CTXS:
                     for _ in range(3):
                         cases.append((0, DOCS[0], cx, k, buf, gen_top(r2, opkey, r2.below(2))))
         cases.sort(key=lambda c: c[0])
@@ -650,10 +757,15 @@ def run(ctx):
                    "correspondence", not st["model_dis"], json.dumps(st["model_dis"][:3])[:1800])
         ctx.oblige("model self-check: evalAs = stdConv∘eval on every generated case (instance of eval_ep_eq_conv_eval)",
                    "correspondence", not st["spec_dis"], json.dumps(st["spec_dis"][:3])[:1800])
+    ctx.oblige("character events: no entry point delivers an empty event (chunking model: zero events for the empty string)",
+               "correspondence", not st.get("empty_events"), json.dumps(st.get("empty_events", [])[:2])[:1200])
+    ctx.oblige("character events: every cut is one the chunking model admits (sum of event lengths = length of string(generic); "
+               "node-set: per text node of the first node or memoised whole; boolean/number: one event)",
+               "correspondence", not st.get("bad_chunks"), json.dumps(st.get("bad_chunks", [])[:2])[:1200])
     ctx.oblige("stream is not vacuous (>= 200 evaluated cases, every expression op code reached at the root)", "coverage",
                st["cases"] >= 200 and all(("top:" + o) in ctx.hist for o in
                                           ([v[0] for v in K1.values()] + [v[0] for v in K2.values()] + list(K0OP.values()) +
-                                           ["eOP_UNION", "eOP_FUNCTION"])),
+                                           ["eOP_UNION", "eOP_FUNCTION", "eOP_EXTFUNCTION"])),
                str(sorted(k for k in ctx.hist if k.startswith("top:"))))
     ctx.exhaustive = False
 
@@ -670,7 +782,15 @@ def replay(ctx, path):
     H.ask("doc " + hx8(inp["doc"]))
     for vl in VAR_LINES:
         H.ask(vl)
-    line = H.ask("eval %s %d %s %s" % (hx8(inp["context_list"]), inp["context_index"], hx8(inp["supplied_string"]), hx8(inp["expr"])))
+    if inp.get("case_lines"):
+        reps = H.ask_many(list(inp.get("history", [])) + list(inp["case_lines"]))
+        line = reps[-1]
+        print("session history: %d earlier evaluation(s) on the same execution context / object factory" % len(inp.get("history", [])))
+        for h in inp.get("history", []):
+            t = h.split(" ")
+            print("   ", bytes.fromhex(t[4]).decode(), " @", bytes.fromhex(t[1]).decode(), t[2])
+    else:
+        line = H.ask("eval %s %d %s %s" % (hx8(inp["context_list"]), inp["context_index"], hx8(inp["supplied_string"]), hx8(inp["expr"])))
     H.close()
     rep = parse_reply(line)
     print("expression:", inp["expr"], " context:", inp["context_list"], inp["context_index"], " supplied string:", repr(inp["supplied_string"]))
